@@ -147,7 +147,7 @@ def build_api(case):
 def check_c12(case):
     pc, cfg, var, k = case["problem"], case["config"], case["var"], case["k"]
     tags = ["cfg:" + cfg_tag(cfg)] + problem_tags(pc)
-    api = case.get("api") and len(pc["idx"]) == len(pc["shr"])
+    api = case.get("api") and pc["idx"] == list(range(len(pc["shr"])))  # every variable owns the domain of its own index
     if api:
         tags.append("built-with-add_variable")
     pb = engine(build_api, pc) if api else nx.build_problem(pc)
